@@ -9,5 +9,34 @@ fixed = "\n".join("* `%s`" % f for f in json.load(open('/verif/known_findings.js
 s = open('/verif/DESIGN.md').read()
 s = re.sub(r"(### 9\.2 Obligation groups[^\n]*\n\n)\| group \|.*?\n\n(Not built from)", lambda m: m.group(1) + table + "\n\n" + m.group(2), s, flags=re.S)
 s = re.sub(r"(repair; with the repair the obligation discharges and the 20 existing tests still pass\.\n\n).*?\n\n(Defects seen but)", lambda m: m.group(1) + fixed + "\n\n" + m.group(2), s, flags=re.S)
+nfixed = len(fixed.splitlines())
+s = re.sub(r"\*\*Genuine defects\*\*: \d+ `fixed:` lines", "**Genuine defects**: %d `fixed:` lines" % nfixed, s)
+# 9.6 catch matrix from the last seedtest run (seeded/last_run.tsv) and the seeds' meta.json
+import os, glob, csv
+runs = {}
+if os.path.exists('/verif/seeded/last_run.tsv'):
+    for row in csv.reader(open('/verif/seeded/last_run.tsv'), delimiter='\t'):
+        if len(row) >= 6:
+            runs.setdefault(row[0], []).append(row[1:])
+lines = ["| seed | property | what was changed | result of `./check` on the changed tree | first failed obligation |", "|---|---|---|---|---|"]
+caught = missed = undec = 0
+for m in sorted(glob.glob('/verif/seeded/*/meta.json')):
+    sid = os.path.basename(os.path.dirname(m)); md = json.load(open(m))
+    rs = runs.get(sid, [])
+    if not rs:
+        res, ob = "not run", ""
+    else:
+        hit = [r for r in rs if r[2] == "1"]
+        und = [r for r in rs if r[2] == "2"]
+        if hit:
+            r = hit[0]; res = "**caught** by `./check %s` (%s)%s" % (r[0], r[1], "" if r[4] == "0" else ", no-failing-input-found"); ob = "`%s`" % r[3]; caught += 1
+        elif und:
+            res = "undecided (exit 2: tool limit on the changed tree)"; ob = ""; undec += 1
+        else:
+            res = "not caught (exit 0) by " + ", ".join("`./check %s`" % r[0] for r in rs); ob = ""; missed += 1
+    lines.append("| %s | %s | %s | %s | %s |" % (sid, md["property"], md["what"].replace("|", "/")[:170], res, ob))
+matrix = "\n".join(lines) + "\n\nTotals of this run: %d caught, %d not caught, %d undecided, of %d seeded changes.\n" % (caught, missed, undec, caught + missed + undec)
+if "### 9.6 Catch matrix" in s:
+    s = re.sub(r"(### 9\.6 Catch matrix[^\n]*\n\n).*?(\n<!-- end 9\.6 -->)", lambda mm: mm.group(1) + matrix + mm.group(2), s, flags=re.S)
 open('/verif/DESIGN.md', 'w').write(s)
 print("DESIGN.md section 9 refreshed: %d groups, %d fixed" % (len(rows), len(fixed.splitlines())))
